@@ -1005,6 +1005,55 @@ def run_infer_modes_case(p):
     return None
 
 
+def run_infer_nested_case(p):
+    """C04: an inferring query whose constructor argument is itself a term WITHOUT a domain, constrained by keyword
+    (Built(a=POther(name=v))): one instance per registered POther with that name - also when the query is evaluated again
+    after evaluations that were abandoned after a few results (or before the first one)"""
+    from entity_query_language import rule_mode, symbolic_mode, infer, an, entity
+    O.reset_registry()
+    rng = random.Random(p['seed'])
+    names = ['a', 'b', 'c']
+    objs = [O.POther(rng.choice(names), rng.choice([1, 2])) for _ in range(rng.choice([3, 4, 5, 6]))]
+    v_name, v_size = rng.choice(names), rng.choice([1, 2])
+    style = rng.choice(['name', 'name_size', 'query_nested'])
+    log = []
+    try:
+        if style == 'query_nested':
+            # the same shape in a plain query: PSub instances whose ... no nesting available without inference, so the
+            # keyword-constrained term is the selected entity itself and is evaluated through a second query that shares it
+            with symbolic_mode():
+                t = O.POther(name=v_name)
+                q = an(entity(t))
+            key = lambda r: r                                                         # noqa
+            want = [o for o in objs if o.name == v_name]
+        else:
+            with rule_mode():
+                inner = O.POther(name=v_name) if style == 'name' else O.POther(name=v_name, size=v_size)
+                q = infer(entity(O.Built(a=inner, tag='t')))
+            key = lambda r: r.a                                                       # noqa
+            want = [o for o in objs if o.name == v_name and (style == 'name' or o.size == v_size)]
+        for step in range(rng.choice([1, 2, 3])):
+            op = rng.choice(['full', 'partial', 'partial'])
+            log.append(op)
+            if op == 'full':
+                got = [key(r) for r in q.evaluate()]
+                if not O.same_list_by_identity(got, want):
+                    return {'history': log, 'style': style, 'registered': repr(objs), 'name': v_name, 'size': v_size, 'got': repr(got),
+                            'want': repr(want), 'signature_kind': 'after-abandoned-evaluation' if 'partial' in log else 'plain'}
+            else:
+                it = q.evaluate()
+                for _ in range(rng.randrange(0, 3)):
+                    next(it, None)
+                it.close()
+        got = [key(r) for r in q.evaluate()]
+    except Exception as e:  # noqa
+        return {'history': log, 'style': style, 'exception': repr(e), 'trace': traceback.format_exc(limit=4), 'signature_kind': 'exception'}
+    if not O.same_list_by_identity(got, want):
+        return {'history': log, 'style': style, 'registered': repr(objs), 'name': v_name, 'size': v_size, 'got': repr(got), 'want': repr(want),
+                'signature_kind': 'after-abandoned-evaluation' if 'partial' in log else 'plain'}
+    return None
+
+
 def run_the_operand_case(p):
     """C15: the(entity(m, c)) as a comparison operand, c correlated with the enclosing query (unique match per binding)"""
     from entity_query_language import symbolic_mode, let, an, the, entity
@@ -1150,6 +1199,8 @@ def _run_case(p):
         return run_subquery_operand_case(p)
     if p.get('kind') == 'nextrule':
         return run_nextrule_case(p)
+    if p.get('kind') == 'infer_nested':
+        return run_infer_nested_case(p)
     if p.get('kind') == 'infer_modes':
         return run_infer_modes_case(p)
     if p.get('kind') == 'the_nested':
@@ -1357,8 +1408,12 @@ def run_forall_case(p):
     extra = O.gen_cond(rng, 1, 1, vocab=('cmp', 'name'), neg=False) if rng.random() < 0.4 else None
     if p.get('two_free'):
         # two free variables x, y over the SAME domain, both constrained against the universal variable u (index 2)
-        c2 = ('and', ('cmp', rng.choice(['gt', 'ge', 'ne']), ('attr', 0, 'size'), ('attr', 2, 'size')),
+        # ... joined by `and`, or by `or` (each operand then binds only ONE of the free variables: a result of the condition
+        # that leaves the other unbound holds for every value of it)
+        c2 = (rng.choice(['and', 'or', 'or']), ('cmp', rng.choice(['gt', 'ge', 'ne']), ('attr', 0, 'size'), ('attr', 2, 'size')),
               ('cmp', rng.choice(['lt', 'le', 'ne']), ('index', 1, 'k'), ('attr', 2, 'size')))
+        if rng.random() < 0.3:
+            c2 = ('or', c2, ('cmp', 'eq', ('attr', 0, 'name'), ('attr', 1, 'name')))
         try:
             with symbolic_mode():
                 x = let(type_=O.Item, domain=dx)
